@@ -181,6 +181,7 @@ VALUES = {
     "app_name": (("my-app", True), ("  ", False)),
     "greeting": (("Hi there", True), ("42", True), ("true", True), ("nan", None), ("-inf", None)),
     "brand_new_key": (("anything", True), ("7", True)),
+    "brand-new-key": (("anything", True), ("0", True)),      # keys are normalised (- to _) when the file is loaded: get must find what set stored
 }
 
 
